@@ -85,6 +85,134 @@ def ob_point_map(which, mesh, space_spec):
     return proved("sym-exec+normal-form", "%d entries, support %s" % (len(want), list(map(int, space.support_elements))))
 
 
+def ob_fmm_transform(which, mesh, space_spec):
+    """post: the sparse transformation data the FMM evaluators are built from (fmm_assembler.compute_p1_curl_transformation_impl /
+    compute_rwg_basis_transform_impl / compute_rwg_div_transform_impl), executed on a real small grid with symbolic vertices and quadrature rule, are exactly
+    { (value, nq*E + q, 3*pos(E) + f) : E in support, f < 3, q < nq } with value = nm_E (n_E x grad lambda_f) w_q |J_E|  (surface curl of the hat functions),
+    = rwg_f(xi_q) w_q |J_E|  (vector values of the edge functions), = div(rwg_f) w_q |J_E| = 2 l_f w_q  (l_f the length of local edge f: (0,1), (2,0), (1,2))."""
+    from bempp_cl.api.fmm import fmm_assembler as FA
+    from bempp_cl.api.space import maxwell_spaces as MX, shapesets as SH
+
+    S.reset()
+    v, e = PL._mesh(mesh)
+    grid = SG.make_grid(v, e, np.array({"screen2": [1, 1, 2, 2, 1, 3, 2, 2], "tetra": [1, 2, 2, 1]}[mesh], dtype="uint32"))
+    space = PL.make_space(grid, space_spec)
+    g = SG.attach_symbolic(grid, "v")
+    geo = GS.Geometry(g._vertices, grid.elements)
+    pts, wts = S.symarray("q", (2, 2)), S.symarray("qw", (2,), positive=True)
+    loc = space.localised_space
+    sup = [int(E) for E in space.support_elements]
+    with patched(FA), patched(MX), patched(SH):
+        if which == "p1_curl":
+            data, iind, jind = KR.pyfunc(FA.compute_p1_curl_transformation_impl)(grid.data("double"), space.support_elements, space.normal_multipliers, pts, wts)
+        else:
+            fn = FA.compute_rwg_basis_transform_impl if which == "rwg_basis" else FA.compute_rwg_div_transform_impl
+            data, iind, jind = KR.pyfunc(fn)(grid.data("double"), KR.pyfunc(SH._rwg0_shapeset_evaluate), KR.pyfunc(MX._numba_rwg0_evaluate), space.support_elements,
+                                             loc.local_multipliers, space.normal_multipliers, pts, wts)
+    data = np.asarray(data, dtype=object)
+    want = {}
+    edges = ((0, 1), (2, 0), (1, 2))
+    for pos, E in enumerate(sup):
+        n = geo.normal(E)
+        nm = int(space.normal_multipliers[E])
+        for f in range(3):
+            if which == "p1_curl":
+                gr = FS.surface_gradient(geo, E, f)
+                vec = [nm * (n[1] * gr[2] - n[2] * gr[1]), nm * (n[2] * gr[0] - n[0] * gr[2]), nm * (n[0] * gr[1] - n[1] * gr[0])]
+            for q in range(2):
+                scale = wts[q] * geo.int_elem(E)
+                if which == "p1_curl":
+                    val = [c * scale for c in vec]
+                elif which == "rwg_basis":
+                    val = [c * int(loc.local_multipliers[E, f]) * scale for c in FS.basis(geo, loc, E, f, (pts[0, q], pts[1, q]))]
+                else:
+                    a, b = (geo.vertex(int(grid.elements[k, E])) for k in edges[f])
+                    length = S.Sym._coerce(sum((x - y) * (x - y) for x, y in zip(a, b))).sqrt()
+                    val = [2 * length * wts[q]]
+                want[(2 * E + q, 3 * pos + f)] = val
+    got = {}
+    for idx in range(len(iind)):
+        if iind[idx] is None or jind[idx] is None:
+            return violated("a slot of the index arrays is never written", signature="fmm-transform/unwritten/" + which, replay={"confirmed": False})
+        key = (int(iind[idx]), int(jind[idx]))
+        if key in got:
+            return violated("entry (point %d, local dof %d) written twice" % key, signature="fmm-transform/duplicate/" + which, replay={"confirmed": False})
+        got[key] = [data[idx]] if data.ndim == 1 else list(data[:, idx])
+    if set(got) != set(want):
+        return violated("index set differs from {(nq*E+q, 3*pos(E)+f)}: extra %s missing %s" % (sorted(set(got) - set(want))[:4], sorted(set(want) - set(got))[:4]),
+                        signature="fmm-transform/indices/" + which, replay={"confirmed": False})
+    for key in want:
+        for c, (gv, wv) in enumerate(zip(got[key], want[key])):
+            d = S.Sym._coerce(gv) - S.Sym._coerce(wv)
+            if not S.is_zero(d):
+                rp = replay_fmm_transform(which)
+                return violated("%s transformation: value at (point %d, local dof %d), component %d differs from its definition" % (which, key[0], key[1], c),
+                                witness={"mesh": mesh, "space": list(space_spec), "entry": list(key)}, signature="fmm-transform/value/" + which,
+                                replay={"callable": "checks.c17:replay_fmm_transform", "kwargs": {"which": which}, "confirmed": rp["violates"], "result": rp})
+    return proved("sym-exec+normal-form", "%d entries x %d components, support %s" % (len(want), len(next(iter(want.values()))), sup))
+
+
+def replay_fmm_transform(which):
+    """Native (floats): the same definition on the distorted octahedron with a real quadrature rule."""
+    import bempp_cl.api as api
+    from bempp_cl.api.fmm import fmm_assembler as FA
+    from bempp_cl.api.space import maxwell_spaces as MX, shapesets as SH
+    from bempp_cl.api.integration.triangle_gauss import rule
+
+    warnings.simplefilter("ignore")
+    grid = Z.grid_with_domains("octa")
+    pts, wts = rule(3)
+    nq = len(wts)
+    worst = 0.0
+    edges = ((0, 1), (2, 0), (1, 2))
+    if which == "p1_curl":
+        space = api.function_space(grid, "P", 1, segments=[2], include_boundary_dofs=True, swapped_normals=[2])
+        data, iind, jind = FA.compute_p1_curl_transformation_impl(grid.data("double"), space.support_elements, space.normal_multipliers, pts, wts)
+    else:
+        space = api.function_space(grid, "RWG", 0, segments=[2], include_boundary_dofs=True)
+        fn = FA.compute_rwg_basis_transform_impl if which == "rwg_basis" else FA.compute_rwg_div_transform_impl
+        data, iind, jind = fn(grid.data("double"), SH._rwg0_shapeset_evaluate, MX._numba_rwg0_evaluate, space.support_elements,
+                              space.localised_space.local_multipliers, space.normal_multipliers, pts, wts)
+    data = np.asarray(data)
+    for pos, E in enumerate(space.support_elements):
+        E = int(E)
+        V = grid.vertices[:, grid.elements[:, E]]
+        J = np.array([V[:, 1] - V[:, 0], V[:, 2] - V[:, 0]]).T
+        n = grid.normals[E]
+        area2 = grid.integration_elements[E]
+        Gm = J @ np.linalg.inv(J.T @ J)
+        grads = [-(Gm[:, 0] + Gm[:, 1]), Gm[:, 0], Gm[:, 1]]
+        for f in range(3):
+            for q in range(nq):
+                idx = [i for i in range(len(iind)) if iind[i] == nq * E + q and jind[i] == 3 * pos + f]
+                if len(idx) != 1:
+                    return {"violates": True, "detail": "entry (E=%d, f=%d, q=%d) occurs %d times" % (E, f, q, len(idx))}
+                if which == "p1_curl":
+                    want = space.normal_multipliers[E] * np.cross(n, grads[f]) * wts[q] * area2
+                    got = data[:, idx[0]]
+                elif which == "rwg_basis":
+                    a, b = edges[f]
+                    opp = 3 - a - b
+                    x = V[:, 0] + J @ pts[:, q]
+                    want = np.linalg.norm(V[:, a] - V[:, b]) / area2 * (x - V[:, opp]) * wts[q] * area2
+                    got = data[:, idx[0]]
+                else:
+                    a, b = edges[f]
+                    want = np.array([2 * np.linalg.norm(V[:, a] - V[:, b]) * wts[q]])
+                    got = np.array([data[idx[0]]])
+                worst = max(worst, float(np.abs(got - want).max() / max(1e-300, np.abs(want).max())))
+    return {"violates": bool(worst > 1e-12), "relative_error": worst}
+
+
+def ob_fmm_transform_native(which):
+    """bounded (floats): the same definition on the distorted octahedron, real rule of order 3, segment space"""
+    r = replay_fmm_transform(which)
+    if r["violates"]:
+        return violated("%s transformation differs natively from its definition: %s" % (which, r), signature="fmm-transform/native/" + which,
+                        replay={"callable": "checks.c17:replay_fmm_transform", "kwargs": {"which": which}, "confirmed": True, "result": r})
+    return held("relative error %.1e" % r["relative_error"])
+
+
 def replay_point_map(which):
     import bempp_cl.api as api
 
@@ -428,6 +556,15 @@ def main():
         for mesh in ("tetra", "screen2"):
             for sp in (("DP", 0, {}), ("P", 1, {"include_boundary_dofs": True}), ("DP", 1, {"segments": [2]}), ("P", 1, {"segments": [1, 2]}), ("DP", 0, {"support_elements": [1, 3]})):
                 run.add("%s.map_space_to_points_impl[%s %s%d %s]" % (which, mesh, sp[0], sp[1], sorted(sp[2].items())), "bounds", ob_point_map, which, mesh, sp)
+    for f in (FA.compute_p1_curl_transformation_impl, FA.compute_rwg_basis_transform_impl, FA.compute_rwg_div_transform_impl):
+        run.under_contract(f, dropped="numba decorator; float dtypes (exact symbols); the scipy products that wrap the data into operators are covered by the bounded fmm==dense obligations")
+    for which, specs in (("p1_curl", (("P", 1, {}), ("P", 1, {"segments": [2], "include_boundary_dofs": True, "swapped_normals": [2]}), ("DP", 1, {"support_elements": [1, 3]}))),
+                         ("rwg_basis", (("RWG", 0, {}), ("RWG", 0, {"segments": [2], "include_boundary_dofs": True}))),
+                         ("rwg_div", (("RWG", 0, {}), ("RWG", 0, {"segments": [2], "include_boundary_dofs": True})))):
+        for mesh in ("tetra", "screen2"):
+            for sp in specs:
+                run.add("fmm_assembler.compute_%s_transform[%s %s%d %s]" % (which, mesh, sp[0], sp[1], sorted(sp[2].items())), "post", ob_fmm_transform, which, mesh, sp)
+        run.add("fmm_assembler.compute_%s_transform::native[octa]" % which, "bounded", ob_fmm_transform_native, which)
     for mode in NEAR:
         run.add("fmm.helpers.%s_kernel::post" % mode, "post", ob_near_field_kernel, mode)
         run.add("fmm.helpers.%s_kernel::coincident" % mode, "bounded", ob_coincident, mode)
